@@ -319,6 +319,11 @@ func Generate(repo, mode, outDir, srcDir string) (*Info, error) {
 						if id, ok := n.(*ast.Ident); ok {
 							if v := pkgVar(id); v != nil {
 								name := v.Pkg().Name() + "." + v.Name()
+								if isSyncType(v.Type()) {
+									// a synchronisation object (sync.Mutex, sync.Pool, atomic.Int64, ...): using it is a
+									// scheduling point but not a data access
+									name = "sync:" + name
+								}
 								acc[name] = acc[name] || writes[id]
 							}
 						}
@@ -347,7 +352,7 @@ func Generate(repo, mode, outDir, srcDir string) (*Info, error) {
 			}
 			recordAccess := func(acc map[string]bool) {
 				for k, w := range acc {
-					g := globals[k]
+					g := globals[strings.TrimPrefix(k, "sync:")]
 					if g == nil {
 						continue
 					}
@@ -656,6 +661,20 @@ func pureExpr(e ast.Expr) bool {
 		return pureExpr(x.X)
 	case *ast.StarExpr:
 		return pureExpr(x.X)
+	}
+	return false
+}
+
+// isSyncType: the type (or what it points to) is declared in package sync or sync/atomic.
+func isSyncType(t types.Type) bool {
+	if p, ok := t.Underlying().(*types.Pointer); ok {
+		t = p.Elem()
+	}
+	if n, ok := t.(*types.Named); ok && n.Obj().Pkg() != nil {
+		switch n.Obj().Pkg().Path() {
+		case "sync", "sync/atomic":
+			return true
+		}
 	}
 	return false
 }
